@@ -178,6 +178,25 @@ def extract(repo):
     else:
         raise ValueError("the MakeRedefined( … ) call exp2cxx prints is not recognised")
 
+    # ---- identifier length exp2cxx accepts, and the buffers ClassName / PrettyTmpName write into
+    cw = rd("src/exp2cxx/classes_wrapper.cc")
+    mm = re.search(r"#define\s+MAX_IDENT_LEN\s+\(\s*MAX_LEN\s*-\s*(\d+)\s*\)", cw)
+    ml = re.search(r"#define\s+MAX_LEN\s+(\d+)", ch + cs)
+    if not mm or not ml or "if( len <= MAX_IDENT_LEN )" not in cw or "check_identifier_lengths( express )" not in cw:
+        raise ValueError("classes_wrapper.cc: the identifier length check (MAX_IDENT_LEN) is not recognised")
+    max_ident = int(ml.group(1)) - int(mm.group(1))
+    cstr = rd("src/exp2cxx/class_strings.c")
+    if not re.search(r"static\s+char\s+newname\s*\[\s*BUFSIZ\s*\+\s*1\s*\]", cstr) or "j < BUFSIZ" not in cstr:
+        raise ValueError("ClassName: static buffer of BUFSIZ+1 characters with the bound j < BUFSIZ not recognised")
+    su = rd("src/clutils/Str.cc")
+    if "i < BUFSIZ - 1" not in _body(su, r"const\s+char\s*\*\s*PrettyTmpName\s*\([^)]*\)\s*\{"):
+        raise ValueError("PrettyTmpName: bound i < BUFSIZ - 1 not recognised")
+    import subprocess
+    try:
+        o = subprocess.run(["cc", "-E", "-dM", "-x", "c", "-include", "stdio.h", "-"], input="", capture_output=True, text=True, timeout=30).stdout
+        bufsiz = int(re.search(r"#define\s+BUFSIZ\s+(\d+)", o).group(1))
+    except Exception:
+        bufsiz = 256            # the least value ISO C allows
     def codes(s):
         return "[" + ", ".join(str(ord(x)) for x in s) + "]"
     text = f"""/- generated by tools/extract.d/dictgen.py from src/clstepcore/STEPattributeList.cc, STEPattribute.cc,
@@ -221,6 +240,13 @@ def nonRefLinkBound : Option Nat := {link_bound}
 
 /-- `LITERAL_INFINITY->u.integer` -/
 def literalInfinity : Int := {inf}
+
+/-- classes_wrapper.cc `MAX_IDENT_LEN`: exp2cxx refuses, with a diagnostic and a failure status, a schema with a longer identifier -/
+def maxIdentLen : Nat := {max_ident}
+
+/-- `BUFSIZ` of the C library the generator is built with (`ClassName` writes at most BUFSIZ characters into `newname[BUFSIZ+1]`,
+    `PrettyTmpName` reads at most BUFSIZ-1) -/
+def cBufsiz : Nat := {bufsiz}
 
 def entityClassPrefix : List Nat := {codes(pre["ENTITYCLASS_PREFIX"])}
 def attrPrefix : List Nat := {codes(pre["ATTR_PREFIX"])}
